@@ -4,6 +4,7 @@ executions (C10), Frisky records (C21).  Signature: ob(ctx, k, act, d, nv, probl
 from __future__ import annotations
 
 import math
+import itertools
 import json
 import warnings
 
@@ -244,6 +245,63 @@ def obs_fusion(ctx, k, act, d, nv, problems):
         return
     if c is not None:
         ctx["emit"].append(c)
+
+
+# ------------------------------------------------------------------ C02 / C04: diamonds (Fusion.tla)
+def _output_blocks(d):
+    """block index -> value of the optimized (pinned, fused) graph's output blocks"""
+    store, keys, _ = run_graph(fresh(d), True)
+    return {tuple(int(v) for v in k[1:]): np.asarray(store[k]) for k in keys}
+
+
+def obs_diamond(ctx, k, act, d, nv, problems):
+    """For the programs of ArrayProgram.DiamondAct over a from_array source on the unit grid: which blocks of the shared
+    node's source does every output block of the OPTIMIZED graph read?  Observed black-box: one source block at a time
+    is perturbed and the program rebuilt; the output blocks whose value changes read it.  Fusion.tla predicts the set."""
+    import dask_array as da
+
+    from . import replay
+
+    prog = ctx["prog"]
+    tr = [a for a in prog if a["a"] == "Transpose"]
+    if k != len(prog) - 1 or len(tr) != 3 or prog[0]["kind"] != "i" or len(prog[0]["shape"]) != 3:
+        return
+    grids = ctx["grids"]
+    if any(c != 1 for ax in grids[0] for c in ax):
+        return          # other grids: the operands are re-aligned (unify_chunks) and blocks no longer correspond one to one
+    case = {"fn": "diamond", "at": k, "left": [tr[1]["perm"], tr[0]["perm"]], "right": [tr[2]["perm"]], "blocks": [], "raised": ""}
+
+    def build(perturb):
+        env = []
+        gi = 0
+        for a in prog:
+            if a["a"] == "Source":
+                arr = replay.src_array(a).copy()
+                if gi == 0 and perturb is not None:
+                    arr[perturb] += 1000
+                env.append(da.from_array(arr, chunks=tuple(tuple(c) for c in grids[gi])))
+                gi += 1
+            else:
+                env.append(replay.apply_action(da, a, env, "da"))
+        return env[-1]
+
+    try:
+        with warnings.catch_warnings():
+            warnings.simplefilter("ignore")
+            base = _output_blocks(build(None))
+            reads = {b: [] for b in base}
+            shape = prog[0]["shape"]
+            for B in itertools.product(*[range(n) for n in shape]):        # unit grid: block index = element index
+                out = _output_blocks(build(B))
+                for b in base:
+                    if b not in out or out[b].shape != base[b].shape or not np.array_equal(out[b], base[b]):
+                        reads[b].append([int(v) for v in B])
+    except Exception as ex:
+        case["raised"] = f"{type(ex).__name__}: {str(ex)[:160]}"
+        ctx["emit"].append(case)
+        return
+    case["blocks"] = [{"idx": list(b), "reads": reads[b]} for b in sorted(reads)]
+    ctx["emit"].append(case)
 
 
 # ------------------------------------------------------------------ C08 (termination, idempotence, no new exception)
